@@ -483,6 +483,13 @@ class BinTableNumpy(AbstractBinTable):
     def to_list(self) -> List[List[bool]]:
         return np.asarray(self.data).tolist()
 
+    def _transform_data(self, data) -> Tuple[npt.NDArray[bool], int, int]:
+        data, height, width = super(BinTableNumpy, self)._transform_data(data)
+        if height == 0:
+            # keep an (empty) array so that every operation still works on an empty table
+            data = np.zeros((0, 0), dtype=bool)
+        return data, height, width
+
     @staticmethod
     def _transform_data_fromlists(data: List[List[bool]]) -> npt.NDArray[bool]:
         return np.array(data)
